@@ -339,8 +339,8 @@ HARNESSES = [
                    [{'n': n, 'q': q, 'kind': k} for n in (2, 3, 4) for q in (1, 2, 3)
                     for k in ('S', 'E')] +
                    [{'n': n, 'q': q, 'kind': 'F', 'qd': qd, 'dt': dt} for n in (2, 3, 4)
-                    for q in (1, 2, 3, 4) for qd in (0.5, 1.0, 0.3) for dt in (1.0, 0.7)
-                    if not (n == 4 and qd == 0.3)]},     # 4 samples x 0.3-step grids: > 25 min/case
+                    for q in (1, 2, 3, 4) for qd in (0.5, 1.0) for dt in (1.0, 0.7)]},
+            # (0.3-step target grids: > 25 min or > 7 GB per case - outside the thorough family)
             budget={'quick': {'max_paths': 3000, 'wall_s': 300},
                     'thorough': {'max_paths': 20000, 'wall_s': 1500}}),
 ]
